@@ -3820,11 +3820,12 @@ theorem specPairsUnion_isCol (env : Env) (tgt : List String) (parts : List (List
 
 
 /-- **end to end, query level, set operation** -/
-theorem exWriteQueryUnion_exact (env : Env) (isInsert : Bool) (tgt : List String) (first : Branch) (rest : List OpBranch)
+theorem exWriteQueryUnion_exact' (env : Env) (isInsert : Bool) (tgt : List String) (first : Branch) (rest : List OpBranch)
     (hp : env.prov.truthy = false) (hfrag : fragSetop env tgt (.setop first rest) = true) :
     ∃ g, exWriteQuery env isInsert tgt none (.setop first rest) = .ok g ∧
       EdgesExact g (specPairsUnion env tgt (setopParts first rest))
-        ((setopParts first rest).flatMap (fun b => fromTabs env b.2)) [] := by
+        ((setopParts first rest).flatMap (fun b => fromTabs env b.2)) [] ∧
+      TagFacts g ((setopParts first rest).flatMap (fun b => fromTabs env b.2)) (mkTable env tgt none).d := by
   simp only [fragSetop, Bool.and_eq_true, Bool.not_eq_true', List.any_eq_false, beq_iff_eq, decide_eq_true_eq] at hfrag
   obtain ⟨⟨⟨⟨⟨hf, hr⟩, hself⟩, hparts⟩, hkeys1⟩, hnd⟩ := hfrag
   obtain ⟨s, nm, al, hmk⟩ : ∃ s nm al, mkTable env tgt none = ⟨.table s nm, al⟩ := ⟨_, _, _, rfl⟩
@@ -3966,7 +3967,11 @@ theorem exWriteQueryUnion_exact (env : Env) (isInsert : Bool) (tgt : List String
           rw [← this]; exact (unionBranchPairs_spec env tgt b1.1 b x).mpr hx
     refine ⟨(g0 (mkTable env tgt none)).compose g2, ?_, edgesExact_compose (g0 (mkTable env tgt none)) g2 _ _ _
       (by intro e he; rw [g0_edges] at he; cases he) (by intro e he; rw [g0_edges] at he; cases he)
-      (edgesExact_of_wired hb hwfin (specPairsUnion_isCol env tgt (b1 :: restp)) ?_ (by intro p hp'; cases hp'))⟩
+      (edgesExact_of_wired hb hwfin (specPairsUnion_isCol env tgt (b1 :: restp)) ?_ (by intro p hp'; cases hp')),
+      by
+        rw [hd]
+        exact tagFacts_of_wired _ _ _ (.table s nm) g2 _ hTRall hb hwfin
+          (by intro n; rw [g0_tag]; simp) (by intro n; rw [g0_tag]; simp)⟩
     · rw [exWriteQuery_eq]
       unfold wq0
       rw [writeTargetHolder_none env isInsert tgt hp, exQuery_setop_tab env _ first rest hf hr]
@@ -3979,6 +3984,14 @@ theorem exWriteQueryUnion_exact (env : Env) (isInsert : Bool) (tgt : List String
     · intro u v
       rw [hbE]; simp
 
+
+theorem exWriteQueryUnion_exact (env : Env) (isInsert : Bool) (tgt : List String) (first : Branch) (rest : List OpBranch)
+    (hp : env.prov.truthy = false) (hfrag : fragSetop env tgt (.setop first rest) = true) :
+    ∃ g, exWriteQuery env isInsert tgt none (.setop first rest) = .ok g ∧
+      EdgesExact g (specPairsUnion env tgt (setopParts first rest))
+        ((setopParts first rest).flatMap (fun b => fromTabs env b.2)) [] := by
+  obtain ⟨g, h1, h2, _⟩ := exWriteQueryUnion_exact' env isInsert tgt first rest hp hfrag
+  exact ⟨g, h1, h2⟩
 
 /-- **end to end, statement level, set operation** -/
 theorem analyze_exact_setop (env : Env) (silent : Bool) (s : Stmt) (hp : env.prov.truthy = false)
